@@ -74,6 +74,14 @@ static Tok gen_int_tok() {
   return t;
 }
 
+// Spelling of an exponent's magnitude. exp = e [+-] 1*DIGIT puts no bound on the number of digits: e0000000002 is the exponent 2.
+// A quarter of the exponents carry leading zeros: 1..3 of them or 0..20.
+static std::string exp_spelling(int64_t magnitude) {
+  std::string ed = std::to_string(magnitude);
+  if (vg::chance(1, 4)) ed = std::string(vg::coin() ? 1 + vg::below(3) : vg::below(21), '0') + ed;
+  return ed;
+}
+
 // Un-normalised mantissa. JSON does not require 1 <= m < 10: "0.001e310" (= 1e307) and "12345678901234567890e-325"
 // (= 1.2e-306) are numbers within double range although the exponent ALONE is beyond what a double's exponent can hold.
 // The numeral has at most 40 digits and a 3-digit exponent chosen so that the VALUE lies within 1e-290..1e291.
@@ -102,7 +110,7 @@ static std::string gen_unnormalised_num() {
   s += vg::coin() ? "e" : "E";
   if (e < 0) s += "-";
   else if (vg::coin()) s += "+";
-  s += std::to_string(e < 0 ? -e : e);
+  s += exp_spelling(e < 0 ? -e : e);
   return s;
 }
 
@@ -133,9 +141,7 @@ static Tok gen_num_tok() {
     s += vg::coin() ? "e" : "E";
     if (e < 0) s += "-";
     else if (vg::coin()) s += "+";
-    std::string ed = std::to_string(e < 0 ? -e : e);
-    if (ed.size() < 3 && vg::chance(1, 6)) ed = "0" + ed;
-    s += ed;
+    s += exp_spelling(e < 0 ? -e : e);
   }
   return Tok{T_NUM, s};
 }
@@ -226,6 +232,56 @@ static std::vector<Tok> gen_doc_tokens(int budget, int max_depth) {
   return t;
 }
 
+// A string body that holds structural characters IN BULK (hundreds to thousands of brackets, braces, commas, colons, slashes,
+// blanks, escaped quotes and escaped backslashes): what a string contains is not structure, whatever its amount, and a string
+// may end in any number of escaped backslashes right before its closing quote. `elements` = number of characters/escapes.
+static const char* const kBulkElems[10] = {"[", "{", "]", "}", ",", ":", "/", " ", "\\\"", "\\\\"};
+static const char* const kBulkTails[6] = {"", "\\\\", "\\\\\\\\", "\\\\\\\\\\\\", "\\\"", ""}; // what stands right before the closing quote
+static std::string bulk_string_body(unsigned theme, unsigned elem, size_t elements, uint64_t seed, unsigned tail) {
+  std::string filler = vg::expand(seed, elements), r;
+  r.reserve(2 * elements + 8);
+  for (size_t k = 0; k < elements; k++) {
+    unsigned v = static_cast<unsigned char>(filler[k]);
+    switch (theme % 4) {
+      case 0: r += kBulkElems[elem % 10]; break; // a run of one element
+      case 1: r += (v % 8) ? kBulkElems[v % 2] : kBulkElems[(v / 8) % 10]; break; // mostly opening brackets
+      case 2: r += kBulkElems[v % 10]; break; // uniform over the ten elements
+      default: r += (k < elements / 2) ? kBulkElems[v % 2] : kBulkElems[2 + v % 2]; // text that looks like nested containers
+    }
+  }
+  return r + kBulkTails[tail % 6];
+}
+static std::string gen_bulk_string_body() {
+  size_t elements = vg::chance(1, 4) ? vg::below(300) : 300 + vg::below(2300);
+  return bulk_string_body(vg::below(4), vg::below(10), elements, vg::u64(), vg::below(6));
+}
+static std::string gen_small_string_body() { return gen_string_body() + kBulkTails[vg::below(6)]; }
+
+// A document (mostly of more than 1000 bytes) made of a few strings - keys and values - with bulk structural content, small
+// strings with the same endings and small values between them.
+static std::string gen_bulk_doc() {
+  bool dict = vg::coin();
+  size_t cnt = 2 + vg::below(3);
+  std::string r = dict ? "{" : "[";
+  for (size_t j = 0; j < cnt; j++) {
+    if (j) r += ",";
+    r += gen_ws();
+    if (dict) {
+      // unique keys: the key starts with a per-entry digit (so that it can END in an escaped backslash)
+      r += "\"" + std::string(1, static_cast<char>('0' + j)) + (vg::coin() ? gen_bulk_string_body() : gen_small_string_body()) + "\"";
+      r += gen_ws() + ":" + gen_ws();
+    }
+    switch (vg::below(4)) {
+      case 0: r += "\"" + gen_small_string_body() + "\""; break;
+      case 1: r += render(gen_doc_tokens(1 + static_cast<int>(vg::below(5)), 2)); break;
+      default: r += "\"" + gen_bulk_string_body() + "\"";
+    }
+    r += gen_ws();
+  }
+  r += dict ? "}" : "]";
+  return r;
+}
+
 static std::string gen_nested(size_t depth) {
   // brackets nested `depth` deep with a small payload at the bottom
   std::string open, close;
@@ -251,12 +307,23 @@ static const std::string kGarbageFirst = std::string(",]}:\"#@!z[{-*") + std::st
 static Case gen_doc() {
   std::string core;
   if (vg::chance(1, 40)) core = gen_nested(vg::chance(1, 3) ? 500 : 2 + vg::below(499));
+  else if (vg::chance(1, 40)) core = gen_bulk_doc();
   else core = render(gen_doc_tokens(3 + static_cast<int>(vg::scaled(30)), 6));
   std::string suffix(1, kNonExtending[vg::below(kNonExtending.size())]);
   suffix += vg::bytes(vg::below(5));
   std::string garbage(1, kGarbageFirst[vg::below(kGarbageFirst.size())]);
   garbage += vg::bytes(vg::below(4));
   return Case("doc").S(gen_ws()).S(core).S(gen_ws()).S(suffix).S(garbage);
+}
+
+// number of structural characters [ ] { } , : inside the strings of a document (the reference's extents tell the strings apart)
+static size_t structural_in_strings(const std::string& doc, const rj::Result& r) {
+  size_t n = 0;
+  for (const auto& ex : r.extents) {
+    if (doc[ex.first] != '"') continue;
+    for (size_t k = ex.first; k < ex.second; k++) n += (doc[k] == '[' || doc[k] == ']' || doc[k] == '{' || doc[k] == '}' || doc[k] == ',' || doc[k] == ':');
+  }
+  return n;
 }
 
 static void note_shape(const rj::Result& r) {
@@ -299,6 +366,21 @@ static void run_doc(const Case& c) {
     }
   }
   note_shape(ref);
+  if (doc.size() > 1000) {
+    size_t st = structural_in_strings(doc, ref);
+    ctx().cls(st >= 1000 ? "doc:>1000 bytes, >=1000 structural characters inside strings" : st >= 100 ? "doc:>1000 bytes, 100-999 structural characters inside strings" : "doc:>1000 bytes");
+  }
+  {
+    // an exponent spelled with leading zeros
+    bool lz = false;
+    for (size_t k = 0; k + 2 < core.size() && !lz; k++)
+      if ((core[k] == 'e' || core[k] == 'E') && k > 0 && core[k - 1] >= '0' && core[k - 1] <= '9') {
+        size_t j = k + 1;
+        if (core[j] == '+' || core[j] == '-') j++;
+        lz = j + 1 < core.size() && core[j] == '0' && core[j + 1] >= '0' && core[j + 1] <= '9';
+      }
+    if (lz && ref.has_frac_or_exp) ctx().cls("doc:exponent spelled with leading zeros");
+  }
   ctx().count(11);
 }
 
@@ -436,7 +518,7 @@ static void run_edit(const Case& c) {
   x.cls("edit:standard-but-out-of-domain (not asserted)", tally.standard_out_of_domain);
   x.cls("edit:non-standard-text-accepted-in-strict-mode (observation, not asserted)", tally.phosg_accepts_nonstandard_strict);
   x.cls("edit:texts-rejected-in-both-modes", tally.rejected_both);
-  if (tally.out_of_scope) x.exclude("edited text with an exponent of more than 3 digits", tally.out_of_scope);
+  if (tally.out_of_scope) x.exclude("edited text with an exponent above 999", tally.out_of_scope);
   rj::Result ref = rj::parse_document(doc, 600);
   if (ref.ok && ref.has_container && doc.size() >= 6) x.nontrivial_case();
 }
@@ -485,7 +567,7 @@ static void run_seq(const Case& c) {
   }
   if (total > (4u << 20)) throw std::logic_error("seq case: too long");
   std::vector<c5::Outcome> out = run_stream(c, skip);
-  if (skipped) ctx().exclude("stream text with an exponent of more than 3 digits", skipped);
+  if (skipped) ctx().exclude("stream text with an exponent above 999", skipped);
   bool reader_only = true, rejected_before = false, accepted_after_reject = false;
   for (size_t k = 0; k < c.s.size(); k++) {
     if (skip[k]) continue;
@@ -633,7 +715,35 @@ static void enum_doc(Enum& e) {
       e.exec(Case("doc").S(" ").S("[" + num + ",{\"a\":" + num + "}]").S("\n").S("]").S("}"));
     }
   }
-  e.complete("fixed documents x 6 suffixes; bracket nesting 100, 499 and 500; un-normalised numerals 1e-36..1e37 (mantissa) x 11 value scales 1e-290..1e290");
+  // exponent spellings: 0..20 leading zeros x 7 exponent values x {none, +, -} x 5 mantissas (exp = e [+-] 1*DIGIT: the value counts)
+  static const char* kMant[] = {"1", "5", "2.5", "0.25", "123"};
+  static const int kExpVal[] = {0, 1, 2, 10, 17, 100, 290};
+  for (size_t z = 0; z <= 20 && !e.stop; z++) {
+    if (!e.mine(idx++)) continue;
+    for (int ev : kExpVal)
+      for (const char* sign : {"", "+", "-"})
+        for (size_t m = 0; m < 5; m++) {
+          std::string num = std::string((z + m) % 3 == 0 ? "-" : "") + kMant[m] + ((z + ev) % 2 ? "e" : "E") + sign + std::string(z, '0') + std::to_string(ev);
+          if (m % 2) e.exec(Case("doc").S("").S(num).S(" ").S(",").S("@"));
+          else e.exec(Case("doc").S("\n").S("{\"a\":[" + num + "]}").S("").S("}").S("]"));
+        }
+  }
+  // bulk structural content inside strings: a first string with each kind of ending (nothing, 1..3 escaped backslashes, an escaped
+  // quote), then a string of 300 / 1200 / 2500 elements of each theme and element; as list items and as key + value
+  for (unsigned tail = 0; tail < 5 && !e.stop; tail++)
+    for (unsigned theme = 0; theme < 4; theme++) {
+      if (!e.mine(idx++)) continue;
+      for (unsigned elem = 0; elem < (theme == 0 ? 10u : 1u); elem++)
+        for (size_t elements : {300, 1200, 2500}) {
+          std::string first = std::string("\"a") + kBulkTails[tail] + "\"";
+          std::string bulk = "\"" + bulk_string_body(theme, elem, elements, 0xC05 + elements + theme, (tail + elem) % 5) + "\"";
+          e.exec(Case("doc").S("").S("[" + first + "," + bulk + "]").S("\n").S(",").S("@"));
+          e.exec(Case("doc").S(" ").S("{" + first + ":" + bulk + "}").S("").S("]").S("}"));
+        }
+    }
+  e.complete("fixed documents x 6 suffixes; bracket nesting 100, 499 and 500; un-normalised numerals 1e-36..1e37 (mantissa) x 11 value scales 1e-290..1e290; "
+             "exponents spelled with 0..20 leading zeros x 7 values x 3 signs x 5 mantissas; two-string documents: 5 string endings x bulk structural strings "
+             "(4 themes, 10 elements, 300/1200/2500 elements)");
 }
 
 static void enum_seq(Enum& e) {
